@@ -52,7 +52,7 @@ def cases(tier, seed):
         yield {"kind": "tsf", "which": ["clf", "reg"][r % 2], "ni": int(rng.integers(8, 20)), "nt": int(rng.integers(6, 40)),
                "n_estimators": 1 if r % 10 in (0, 5) else int(rng.integers(1, 8)),     # the single-tree forest is always in the workload (both kinds)
                "min_interval": int(rng.integers(3, 6)), "classes": int(rng.integers(2, 5)), "n_jobs": [1, 1, 2][r % 3], "dseed": int(rng.integers(0, 2 ** 31)),
-               "eseed": int(rng.integers(0, 100)), "values": ["float", "float", "int-nested", "int-array"][int(rng.integers(0, 4))]}
+               "eseed": int(rng.integers(0, 100)), "values": ["float", "float", "int-nested", "int-array", "int16-array"][int(rng.integers(0, 5))]}
     for r in range(20 if tier == "quick" else 300):
         FORMS = ["list", "int", "name", "names", "slice", "mask", "callable"]
         k = int(rng.integers(1, 4))
@@ -220,10 +220,13 @@ def _tsf(case, ctx):
     ni, nt = case["ni"], case["nt"]
     X, cidx, A = pzoo.make_panel(rng, ni, 1, nt, classes=case["classes"])
     Xte, _, Ate = pzoo.make_panel(rng, 7, 1, nt, classes=case["classes"])
-    if case.get("values") in ("int-nested", "int-array"):
-        # integer-typed panels (counts): the features are still real-valued means / deviations / slopes
+    if case.get("values") in ("int-nested", "int-array", "int16-array"):
+        # integer-typed panels (counts): the features are still real-valued means / deviations / slopes.  Narrow integer types
+        # (sensor counts stored as int16) with values in the thousands: products with the time index exceed the type's range
         Ai, Atei = np.round(A * 10).astype(np.int64), np.round(Ate * 10).astype(np.int64)
-        if case["values"] == "int-array":
+        if case["values"] == "int16-array":
+            Ai, Atei = np.round(A * 1000).astype(np.int16), np.round(Ate * 1000).astype(np.int16)
+        if case["values"] in ("int-array", "int16-array"):
             X, Xte = Ai, Atei
         else:
             X = pd.DataFrame({"dim_0": [pd.Series(Ai[i, 0]) for i in range(ni)]})
